@@ -13,11 +13,12 @@ CLAIMED = {
     'C16': dict(
         category='proof',
         text='CBMC code contracts enforced per function on bodies extracted from /repo on every run. '
-             'Envelope::{lowerSolve,diagonalSolve,upperSolve,element,cholDec,copy,set(bands),set(sparse)} are memory-safe and framed for '
-             'all well-formed profiles (symbolic dimension up to 1e6, loop contracts, no unwinding), the set functions ESTABLISH the '
-             'profile invariant, diagonalSolve writes exact zeros on zero pivots, cholDec leaves every pivot (row 1 included) either '
-             'exactly 0 or >= tol and counts the zeroed ones in defect_; Envelope::inverse: unbounded structural proof (thorough tier). '
-             'SparseMatrix new_row/add_element/transpose/replicate keep the CRS invariant and every entry; inverse_permutaion gives '
+             'Envelope::{lowerSolve,diagonalSolve,upperSolve,element,cholDec,copy,set(bands)} are memory-safe and framed for all '
+             'well-formed profiles (symbolic dimension up to 1e6, loop contracts, no unwinding), copy and set(bands) ESTABLISH the profile '
+             "invariant (set(sparse matrix, graph, ordering) is NOT under contract: its accumulation nest needs 'the envelope covers every "
+             "product of a row', unproved), diagonalSolve writes exact zeros on zero pivots, cholDec leaves every pivot (row 1 included) "
+             'either exactly 0 or >= tol and counts the zeroed ones in defect_; Envelope::inverse: unbounded structural proof (thorough '
+             'tier). SparseMatrix new_row/add_element/transpose/replicate keep the CRS invariant and every entry; inverse_permutaion gives '
              'invp(perm(i)) = i; BlockDiagonal/UpperBlockDiagonal row layout. Bounded, labelled as such: RCM output is a permutation (all '
              'graphs <= 3 nodes quick, 4 nodes thorough), SparseMatrixGraph constructor, connected() == Warshall closure (<= 3/4 nodes), '
              "exact LDL'/solve/inverse on dim <= 3. Numerical equality with dense LDL' for arbitrary reals and RCM quality are NOT decided.",
